@@ -506,6 +506,7 @@ type Clause struct {
 type LoopSpec struct {
 	Index      int
 	FreshOnly  bool
+	Keeps      []*Clause // locations the loop leaves unchanged (assumed at the head, re-proved at every back edge)
 	Invariants []*Clause
 	LockInvariants []*Clause
 	Modifies   []*Clause
@@ -526,6 +527,7 @@ type FuncSpec struct {
 	Modifies  []*Clause
 	LockRequires []*Clause
 	LockEnsures  []*Clause
+	Assumes      []*Clause // postconditions assumed at call sites and not proved from the body (global assumptions such as A-fresh)
 	Witnesses []FunDecl
 	Pure      bool
 	Trusted   bool // contract assumed, body not verified (external functions)
@@ -584,7 +586,7 @@ func NewSpecSet() *SpecSet {
 
 var clauseKeywords = map[string]bool{"requires": true, "ensures": true, "modifies": true, "pure": true, "trusted": true, "lemma": true,
 	"loop": true, "invariant": true, "decreases": true, "callspec": true, "observe": true, "replay": true, "prop": true, "func": true,
-	"sort": true, "fun": true, "ghost": true, "axiom": true, "define": true, "inline": true, "noinline": true, "guarded": true, "flag": true, "loopmodifies": true, "lockrequires": true, "lockensures": true, "lockinvariant": true, "witness": true, "loopfresh": true}
+	"sort": true, "fun": true, "ghost": true, "axiom": true, "define": true, "inline": true, "noinline": true, "guarded": true, "flag": true, "loopmodifies": true, "lockrequires": true, "lockensures": true, "lockinvariant": true, "witness": true, "loopfresh": true, "assumes": true, "loopkeeps": true}
 
 // ParseSpecLines parses the //@ lines of one package (pkgPath is used for type resolution).
 func (ss *SpecSet) ParseSpecLines(lines []SpecLine, pkgPath string, keyPrefix string) error {
@@ -798,9 +800,9 @@ func (ss *SpecSet) ParseSpecLines(lines []SpecLine, pkgPath string, keyPrefix st
 						return fmt.Errorf("%s:%d: bad callspec clause %q", it.src.File, it.src.Line, parts[1])
 					}
 				}
-			case "requires", "ensures", "modifies", "invariant", "decreases", "observe", "loopmodifies", "lockrequires", "lockensures", "lockinvariant":
+			case "requires", "ensures", "modifies", "invariant", "decreases", "observe", "loopmodifies", "lockrequires", "lockensures", "lockinvariant", "assumes", "loopkeeps":
 				texts := []string{it.rest}
-				if it.kw == "modifies" || it.kw == "loopmodifies" || it.kw == "observe" {
+				if it.kw == "modifies" || it.kw == "loopmodifies" || it.kw == "observe" || it.kw == "loopkeeps" {
 					texts = splitTop(it.rest, ',')
 				}
 				for _, tx := range texts {
@@ -821,6 +823,8 @@ func (ss *SpecSet) ParseSpecLines(lines []SpecLine, pkgPath string, keyPrefix st
 						} else {
 							cur.Ensures = append(cur.Ensures, c)
 						}
+					case "assumes":
+						cur.Assumes = append(cur.Assumes, c)
 					case "lockrequires":
 						cur.LockRequires = append(cur.LockRequires, c)
 					case "lockensures":
@@ -839,6 +843,11 @@ func (ss *SpecSet) ParseSpecLines(lines []SpecLine, pkgPath string, keyPrefix st
 							return fmt.Errorf("%s:%d: invariant outside loop", it.src.File, it.src.Line)
 						}
 						curLoop.Invariants = append(curLoop.Invariants, c)
+					case "loopkeeps":
+						if curLoop == nil {
+							return fmt.Errorf("%s:%d: loopkeeps outside loop", it.src.File, it.src.Line)
+						}
+						curLoop.Keeps = append(curLoop.Keeps, c)
 					case "loopmodifies":
 						if curLoop == nil {
 							return fmt.Errorf("%s:%d: loopmodifies outside loop", it.src.File, it.src.Line)
